@@ -23,7 +23,7 @@ type c11Case struct {
 	Script []impl.Answer `json:"script"`
 	API    string        `json:"api"`    // parse | interpret | unmarshal
 	TokBuf int           `json:"tokbuf"` // 0 = as in the source
-	Bound  int           `json:"bound"`
+	Bound  int           `json:"bound"` // preemption bound; -1: all interleavings (state-key pruning)
 }
 
 func (c *c11Case) Key() string {
@@ -199,6 +199,35 @@ func c11Exec(cs fw.Case) *fw.Fail {
 	}
 	total := 0
 	var steps int64
+	if c.Bound < 0 {
+		x := &vsched.Explorer{Unbounded: true, Body: body, Check: check, Stop: func() bool { fw.Heartbeat(); return fw.Cur != nil && fw.Cur.Expired() }, MaxExec: maxExecPerCase()}
+		x.Explore()
+		if x.Infra != "" {
+			return fw.Failf("deterministic replay under the scheduler", "INFRA %s (schedule %v)", x.Infra, x.FailTrace)
+		}
+		if x.Fail != "" {
+			return fw.Failf("every schedule: returns, Close once, no leak, read error preferred, few reads after a lexical failure, outcome = in-memory outcome",
+				"all interleavings, schedule %v: %s", x.FailTrace, x.Fail)
+		}
+		if x.Capped {
+			fw.Tally("capped_explorations", 1)
+			if fw.Cur != nil {
+				fw.Cur.Cap("schedule cap reached during an unbounded exploration")
+			}
+		} else {
+			fw.Tally("unbounded_explorations_completed", 1)
+		}
+		for o := range x.Outcomes {
+			fw.TallyOutcome(o)
+		}
+		fw.Tally("schedules", int64(x.Executions))
+		fw.Tally("states", int64(x.States))
+		fw.Tally("transitions", x.Steps+int64(x.Executions))
+		fw.Tally("traces_validated", int64(x.Executions))
+		fw.Tally("pruned_at_visited_state", int64(x.Pruned))
+		fw.TallyNontrivial()
+		return nil
+	}
 	for b := 0; b <= c.Bound; b++ {
 		x := &vsched.Explorer{Bound: b, Body: body, Check: check, Stop: func() bool { fw.Heartbeat(); return fw.Cur != nil && fw.Cur.Expired() }, MaxExec: maxExecPerCase()}
 		x.Explore()
@@ -298,7 +327,7 @@ func init() {
 		Level: "model_checking",
 		Rule: "stateless model checking of the real ParseFile/InterpretFile/UnmarshalFile pipeline (package bcl rewritten at check time so that its channel operations, go statements and select go through the controlled scheduler mc/vsched): " +
 			"inputs of 5 classes x 2 (valid; syntax error in the first / last chunk; lexical failure in the first chunk with 6 more chunks pending / in the last chunk), each under every reader script of a bounded family (1-3 chunks cut at token and mid-token offsets; <=2 non-default answers among zero-byte read, data+EOF, error, data+error) and tokens-buffer sizes {source value, 1, 2}; " +
-			"for each (input, script) ALL schedules of caller, reader, parser and lexer goroutines with <=B preemptions (quick 1, thorough 2; 3 for single-chunk scripts) are executed. Oracle on every execution: quiescence without deadlock, the call returned, no goroutine left, Close count = 1, the delivered read error is the returned error, <=3 reads after the read delivering a lexical failure, outcome identical to the in-memory API on the delivered bytes. " +
+			"for each (input, script) ALL schedules of caller, reader, parser and lexer goroutines with <=B preemptions (quick 1, thorough 2; 3 for single-chunk scripts) are executed, and in addition ALL interleavings without any bound, pruned by a causal-history state key (quick: for scripts of <=2 answers through ParseFile; thorough: for every case, capped at 3x10^6 executions each). Oracle on every execution: quiescence without deadlock, the call returned, no goroutine left, Close count = 1, the delivered read error is the returned error, <=3 reads after the read delivering a lexical failure, outcome identical to the in-memory API on the delivered bytes. " +
 			"states/transitions = executions (each a distinct schedule).",
 		Subs:           []*fw.Sub{subC11},
 		BudgetQuick:    100,
@@ -349,6 +378,11 @@ func init() {
 								b = 3
 							}
 							c.Do(subC11, &c11Case{Src: in.src, Script: sc, API: api, TokBuf: tb, Bound: b})
+							// and ALL interleavings (no bound) with state-key pruning; in the quick tier only for
+							// the small harnesses (<=2 scripted answers, the plain ParseFile entry point)
+							if c.Thorough() || (len(sc) <= 2 && api == "parse" && len(in.src) <= 26) {
+								c.Do(subC11, &c11Case{Src: in.src, Script: sc, API: api, TokBuf: tb, Bound: -1})
+							}
 							if c.Expired() {
 								c.Cap("deadline")
 								return
